@@ -181,7 +181,7 @@ func GenTree(t *rapid.T, g *Node, w0 *World, o TreeOpts) *Tree {
 		// rapid favours the ends of an integer range: the "invalid" window sits in the middle so that the
 		// percentage means what it says
 		if v := rapid.IntRange(0, 99).Draw(t, "invalid"); o.InvalidPct > 0 && v >= 40 && v < 40+o.InvalidPct {
-			kinds := []string{"bad-stateroot", "bad-receiptsroot", "bad-txroot", "extra-tx-nonce"}
+			kinds := []string{"bad-stateroot", "bad-receiptsroot", "bad-txroot", "extra-tx-nonce", "number-gap", "number-low"}
 			if o.Forged && len(blk.GetBody().GetTxs()) > 0 {
 				kinds = append(kinds, "forged-sig", "forged-sig", "forged-chainid", "forged-chainid", "forged-sig-transplant")
 			}
@@ -236,6 +236,15 @@ func makeInvalid(t *rapid.T, g *Node, blk *types.Block, p *Produced, pstate *typ
 		s := &TxSpec{Kind: "extra", From: from, Nonce: nonce, Type: types.TxType_TRANSFER, Recipient: KeyN(1 - from).Addr, Amount: Aergo}
 		bad.Body.Txs = append(bad.Body.Txs, s.Build(g.ChainIDHashFor(pstate)))
 		bad.Header.TxsRootHash = types.CalculateTxsRootHash(bad.Body.Txs)
+	case "number-gap":
+		// everything is right except that the header claims a number beyond parent+1
+		bad.Header.BlockNo += uint64(rapid.IntRange(1, 3).Draw(t, "gap"))
+	case "number-low":
+		// the header claims the parent's own number (or less)
+		if bad.Header.BlockNo < 2 {
+			return nil
+		}
+		bad.Header.BlockNo -= uint64(rapid.IntRange(1, int(bad.Header.BlockNo)-1).Draw(t, "low"))
 	case "forged-sig", "forged-chainid", "forged-sig-transplant":
 		i := rapid.IntRange(0, len(bad.Body.Txs)-1).Draw(t, "forgeIdx")
 		return ForgeTx(blk, p, i, kind)
